@@ -895,9 +895,7 @@ fn c08_lookup_functions() {
 // ------------------------------------------------------------------ lock ---
 /// Every result-returning public method called from inside an iterate_dir
 /// callback fails with LockError and changes nothing.
-#[kani::proof]
-#[kani::unwind(18)]
-fn c08_lock_reentrancy() {
+fn lock_reentrancy(lo: u8, hi: u8) {
     let mut blocks: [Block; G16A_N] = core::array::from_fn(|_| Block::new());
     {
         // one live entry in the root directory, then the end marker
@@ -924,6 +922,7 @@ fn c08_lock_reentrancy() {
     let mut calls = 0u32;
     let mut all_locked = true;
     let op: u8 = kani::any();
+    kani::assume(op >= lo && op <= hi);
     let r = vm.iterate_dir(d, |_de| {
         calls += 1;
         let mut buf = [0u8; 2];
@@ -967,8 +966,48 @@ fn c08_lock_reentrancy() {
     let data = vm.data.borrow();
     assert!(data.open_volumes.len() == 1 && data.open_dirs.len() == 1 && data.open_files.len() == 1, "lock: a re-entrant call changed the tables");
     assert!(crate::blockdevice::vk_bd::dev(&data.block_cache).nwrites.get() == 0, "lock: a re-entrant call wrote to the device");
-    kani::cover!(op == 11 && n_is_zero_dummy());
-    kani::cover!(op == 21);
+    kani::cover!(op == lo);
+    kani::cover!(op == hi);
+}
+#[kani::proof]
+#[kani::unwind(18)]
+fn c08_lock_open_volume() {
+    lock_reentrancy(0, 0);
+}
+#[kani::proof]
+#[kani::unwind(18)]
+fn c08_lock_dir_listing() {
+    lock_reentrancy(5, 7);
+}
+#[kani::proof]
+#[kani::unwind(18)]
+fn c08_lock_dir_mutation() {
+    lock_reentrancy(8, 10);
+}
+#[kani::proof]
+#[kani::unwind(18)]
+fn c08_lock_make_dir() {
+    lock_reentrancy(21, 21);
+}
+#[kani::proof]
+#[kani::unwind(18)]
+fn c08_lock_file_queries() {
+    lock_reentrancy(15, 20);
+}
+#[kani::proof]
+#[kani::unwind(18)]
+fn c08_lock_close_flush() {
+    lock_reentrancy(13, 14);
+}
+#[kani::proof]
+#[kani::unwind(18)]
+fn c08_lock_read_write() {
+    lock_reentrancy(11, 12);
+}
+#[kani::proof]
+#[kani::unwind(18)]
+fn c08_lock_dir_volume_handles() {
+    lock_reentrancy(1, 4);
 }
 fn n_is_zero_dummy() -> bool {
     true
